@@ -96,3 +96,14 @@ func VerifDecode(method byte, key [32]byte, msg []byte) (sid uint32, seq uint64,
 
 func VerifConnsCount(sesh *Session) uint32 { return atomic.LoadUint32(&sesh.sb.connsCount) }
 func VerifSetStrategyFixed(sesh *Session)  { sesh.sb.strategy = fixedConnMapping }
+
+// VerifStreamsMFree reports whether the session's stream-table lock can be taken right now.
+func VerifStreamsMFree(sesh *Session) bool {
+	if sesh.streamsM.TryLock() {
+		sesh.streamsM.Unlock()
+		return true
+	}
+	return false
+}
+
+func VerifAcceptQueueLen(sesh *Session) int { return len(sesh.acceptCh) }
